@@ -28,12 +28,14 @@ Theorem C05_multi_refuted : exists i, pre_C05 i = true /\ (let '(G, _, _, _) := 
 Proof. exact multi_refuted. Qed.
 Print Assumptions C05_multi_refuted.
 
-(* the full statement with the excluding hypothesis: AT MOST ONE of the targets shares lineage with a row of the table
-   (any number of targets; single id, `base`, --purge, `heads` when at most one branch is affected are inside).
-   inclass_C05 is the boolean class predicate the harness evaluates; its negation is the class of the known finding *)
+(* the full statement with the excluding hypothesis: AT MOST ONE of the targets shares lineage with a row of the table, or the
+   targets that do are rows themselves (any number of targets; single id, `base`, --purge, `heads` when at most one branch is
+   affected are inside).  inclass_C05 is the boolean class predicate; its negation is the class of the known finding.
+   The class cannot be widened to "lineages with the rows pairwise disjoint": C05_multi_refuted's input has that property. *)
 Theorem C05_multi_partial : forall G (purge:bool) t (H:list N), ~ cyclic (all_down G) -> ndeps_okb G = true ->
   (forall t1 t2, In t1 (targets_of t) -> In t2 (targets_of t) ->
-     rel G (if purge then [] else H) t1 -> rel G (if purge then [] else H) t2 -> t1 = t2) ->
+     rel G (if purge then [] else H) t1 -> rel G (if purge then [] else H) t2 ->
+     t1 = t2 \/ (In t1 (if purge then [] else H) /\ In t2 (if purge then [] else H))) ->
   C05_holds (G, purge, t, H) (model_C05 (G, purge, t, H)).
 Proof. exact one_related_target. Qed.
 Print Assumptions C05_multi_partial.
@@ -75,6 +77,22 @@ Theorem C05_label_head_refuted :
 Proof. exact label_head_refuted. Qed.
 Print Assumptions C05_label_head_refuted.
 
+(* ---------- label targets (resolution inside the model: resolve_label) ---------- *)
+(* <label>@base: exactly the rows sharing lineage with the revision that declares the label are deleted *)
+Theorem C05_label_base : forall G purge lab H, ~ cyclic (all_down G) -> ndeps_okb G = true ->
+  Label_holds (G, purge, LBase lab, H) (model_label (G, purge, LBase lab, H)).
+Proof. exact label_base_holds. Qed.
+Print Assumptions C05_label_base.
+
+(* <label>@head resolving to the head h: the single-target statement for h, on the class where no row shares lineage with the
+   labelled revision only; C05_label_head_refuted delimits the rest *)
+Theorem C05_label_head_partial : forall G purge lab H lr h h', ~ cyclic (all_down G) -> ndeps_okb G = true ->
+  resolve_label G (LHead lab) = Ok ([[lr; h]], Some [h']) ->
+  (forall x, In x (e2e_start purge H) -> lineage G [lr] x -> lineage G [h] x) ->
+  Label_holds (G, purge, LHead lab, H) (model_label (G, purge, LHead lab, H)).
+Proof. exact label_head_holds. Qed.
+Print Assumptions C05_label_head_partial.
+
 (* ---------- non-vacuity ---------- *)
 (* the three kinds of single-target stamp on the witness history: move a branch up (a -> e), a new branch (b), down (e -> c) *)
 Example C05_single_nonvacuous :
@@ -105,4 +123,12 @@ Example C05_e2e_nonvacuous :
   model_e2e (Gw, true, [[3]]%N, Some [3]%N, [99]%N) = Ok [3]%N /\
   model_e2e (Gw, false, [[3]]%N, Some [3]%N, [99]%N) = Err ECommand /\
   model_e2e (Gw, false, [[2;3]]%N, Some [3]%N, [2;4]%N) = Ok [3;4]%N.
+Proof. repeat split; vm_compute; reflexivity. Qed.
+Definition Gll : graph := [mkRev 0 [] [] [] [7]; mkRev 1 [0] [] [] []; mkRev 2 [1] [] [] []; mkRev 3 [] [0] [0] []]%N.
+Example C05_label_nonvacuous :
+  resolve_label Gll (LHead 7%N) = Ok ([[0;2]]%N, Some [2]%N) /\ resolve_label Gll (LBase 7%N) = Ok ([[0]]%N, None) /\
+  model_label (Gll, false, LHead 7%N, [1]%N) = Ok [2]%N /\ label_class (Gll, false, LHead 7%N, [1]%N) = true /\
+  model_label (Gll, false, LHead 7%N, [1;3]%N) = Ok [2]%N /\ label_class (Gll, false, LHead 7%N, [1;3]%N) = false /\
+  model_label (Gll, false, LBase 7%N, [1;3]%N) = Ok [] /\ pre_C05 (Gll, false, TBase, [1;3]%N) = true /\
+  inclass_C05 (Gw, false, TIds [2;4]%N, [2;4]%N) = true.
 Proof. repeat split; vm_compute; reflexivity. Qed.
